@@ -202,10 +202,10 @@ pub fn run(tier: Tier) -> i32 {
     let mut run = Run::new("C19", tier, "exploration");
     let p = OwnedSerde;
     run.replays("owned-records", &p);
-    run.generated("owned-records", &p, tier.pick(20_000, 500_000));
+    run.generated("owned-records", &p, tier.pick(100_000, 500_000));
     let q = SetSerde;
     run.replays("record-sets", &q);
-    run.generated("record-sets", &q, tier.pick(40_000, 1_500_000));
+    run.generated("record-sets", &q, tier.pick(150_000, 1_500_000));
     run.finish(RULE, &["two serialisers: serde_json (self-describing) and a minimal positional format written for this harness (bincode-like); other formats are not exercised"])
 }
 
